@@ -1,4 +1,4 @@
-import Wip.C08Fold
+import Cutadapt.Proofs.IndexFold
 namespace Cutadapt.Index
 open Cutadapt Cutadapt.Adapters
 
@@ -37,87 +37,109 @@ theorem forKey_resolve (adapters : List Adapter) (s : Bytes) :
   rw [← events_resolve, rForKey, List.filter_map]
   rfl
 
-theorem pairwise_inj {α β : Type} (f : α → β) (l : List α) (h : l.Pairwise (fun a b => f a ≠ f b))
-    (a b : α) (ha : a ∈ l) (hb : b ∈ l) (hf : f a = f b) : a = b := by
-  induction l with
-  | nil => simp at ha
-  | cons x l ih =>
-    rw [List.pairwise_cons] at h
-    simp only [List.mem_cons] at ha hb
-    rcases ha with ha | ha <;> rcases hb with hb | hb
-    · rw [ha, hb]
-    · subst ha; exact absurd hf (h.1 b hb)
-    · subst hb; exact absurd hf.symm (h.1 a ha)
-    · exact ih h.2 ha hb
-
 /-- what the final index holds for `s`, with the adapter resolved -/
 def finalEntry {D : Type} (ops : DictOps D) (adapters : List Adapter) (isPrefix : Bool) (s : Bytes) : Option (Adapter × Nat × Nat) :=
   (ops.get? (makeIndex ops adapters isPrefix).index s).map (fun en => (adapters.getD en.1 default, en.2))
 
-theorem finalEntry_noties {D : Type} (ops : DictOps D) (hl : ops.Lawful) (adapters : List Adapter) (isPrefix : Bool) (s : Bytes)
-    (hnt : (rForKey s (rEvents adapters)).Pairwise (fun x y => x.2.2.2 ≠ y.2.2.2)) :
-    (rForKey s (rEvents adapters) = [] ∧ finalEntry ops adapters isPrefix s = none) ∨
-    ∃ a e m, finalEntry ops adapters isPrefix s = some (a, e, m) ∧ (a, s, e, m) ∈ rForKey s (rEvents adapters) ∧
-      ∀ x ∈ rForKey s (rEvents adapters), x.2.2.2 ≤ m := by
-  have hfr := forKey_resolve adapters s
-  have hpw : (forKey s (events adapters)).Pairwise (fun a b => a.m ≠ b.m) := by
-    rw [← hfr, List.pairwise_map] at hnt
-    exact hnt
-  have hamb := keyState_noties _ hpw
-  have hfin := (makeIndex_get? ops hl adapters isPrefix s).2.2
-  rw [hamb] at hfin
-  simp only [Bool.false_eq_true, if_false] at hfin
-  cases hks : (keyState (forKey s (events adapters))).1 with
-  | none =>
-    left
-    have := (keyState_none_iff _).mp hks
-    refine ⟨by rw [← hfr, this]; rfl, ?_⟩
-    simp [finalEntry, hfin, hks]
-  | some en =>
-    right
-    obtain ⟨ai, e, m⟩ := en
-    obtain ⟨ev, hev, h1, h2, h3⟩ := keyState_mem _ ai e m hks
-    have hkey : ev.key = s := by
-      have := (List.mem_filter.mp hev).2
-      simpa using this
-    refine ⟨adapters.getD ai default, e, m, by simp [finalEntry, hfin, hks], ?_, ?_⟩
-    · rw [← hfr]
-      refine List.mem_map.mpr ⟨ev, hev, ?_⟩
-      simp [resolve, h1, h2, h3, hkey]
-    · intro x hx
-      rw [← hfr] at hx
-      obtain ⟨ev', hev', rfl⟩ := List.mem_map.mp hx
-      exact keyState_max _ ai e m hks ev' hev'
+/-- `x` is *the* best offer in `R`: no offer has more matches and no other offer has as many -/
+def IsWinner (R : List ROffer) (x : ROffer) : Prop :=
+  x ∈ R ∧ (∀ y ∈ R, y.2.2.2 ≤ x.2.2.2) ∧ (R.filter (fun y => y.2.2.2 == x.2.2.2)).length = 1
 
-/-- **Order independence for keys without ties.** If no two offers for the string `s` (over all adapters) have the same
-    number of matches, the final index holds the same adapter, errors and matches for `s` under every order of the
-    adapter list. -/
+theorem isWinner_perm (R R' : List ROffer) (hp : R.Perm R') (x : ROffer) (h : IsWinner R x) : IsWinner R' x := by
+  obtain ⟨h1, h2, h3⟩ := h
+  refine ⟨(List.Perm.mem_iff hp).mp h1, fun y hy => h2 y ((List.Perm.mem_iff hp).mpr hy), ?_⟩
+  rw [← List.Perm.length_eq (List.Perm.filter _ hp)]; exact h3
+
+theorem cnt_resolve (adapters : List Adapter) (O : List Ev) (m : Nat) :
+    ((O.map (resolve adapters)).filter (fun y => y.2.2.2 == m)).length = cntM O m := by
+  rw [List.filter_map, List.length_map]
+  rfl
+
+/-- **The final index, declaratively**: it holds `(a, e, m)` for `s` exactly when `(a, s, e, m)` is the unique best
+    offer for `s`. -/
+theorem finalEntry_eq_some_iff {D : Type} (ops : DictOps D) (hl : ops.Lawful) (adapters : List Adapter) (isPrefix : Bool)
+    (s : Bytes) (a : Adapter) (e m : Nat) :
+    finalEntry ops adapters isPrefix s = some (a, e, m) ↔ IsWinner (rForKey s (rEvents adapters)) (a, s, e, m) := by
+  have hfr := forKey_resolve adapters s
+  have hfin := (makeIndex_get? ops hl adapters isPrefix s).2.2
+  have hkey : ∀ ev ∈ forKey s (events adapters), ev.key = s := by
+    intro ev hev; simpa using (List.mem_filter.mp hev).2
+  constructor
+  · intro h
+    simp only [finalEntry, hfin] at h
+    cases hks : (keyState (forKey s (events adapters))).1 with
+    | none => simp [hks] at h
+    | some en =>
+      obtain ⟨ai, e', m'⟩ := en
+      cases hb : (keyState (forKey s (events adapters))).2 with
+      | true => simp [hb] at h
+      | false =>
+        simp only [hb, Bool.false_eq_true, if_false, hks, Option.map_some, Option.some.injEq, Prod.mk.injEq] at h
+        obtain ⟨rfl, rfl, rfl⟩ := h
+        obtain ⟨ev, hev, h1, h2, h3⟩ := keyState_mem _ ai e' m' hks
+        have hmax := keyState_max _ ai e' m' hks
+        have hamb := keyState_amb_iff _ ai e' m' hks
+        have hpos : 1 ≤ cntM (forKey s (events adapters)) m' := by rw [← h3]; exact cntM_pos_of_mem _ ev hev
+        have hcnt : cntM (forKey s (events adapters)) m' = 1 := by
+          have : ¬ 2 ≤ cntM (forKey s (events adapters)) m' := fun h2' => by
+            have := hamb.mpr h2'; rw [hb] at this; cases this
+          omega
+        rw [← hfr]
+        refine ⟨List.mem_map.mpr ⟨ev, hev, by simp [resolve, h1, h2, h3, hkey ev hev]⟩, ?_, ?_⟩
+        · intro y hy
+          obtain ⟨ev', hev', rfl⟩ := List.mem_map.mp hy
+          exact hmax ev' hev'
+        · rw [cnt_resolve]; exact hcnt
+  · rintro ⟨hmem, hmaxR, hcntR⟩
+    rw [← hfr] at hmem hmaxR hcntR
+    obtain ⟨evx, hevx, hrx⟩ := List.mem_map.mp hmem
+    cases hks : (keyState (forKey s (events adapters))).1 with
+    | none =>
+      have := (keyState_none_iff _).mp hks
+      rw [this] at hevx; simp at hevx
+    | some en =>
+      obtain ⟨ai, e', m'⟩ := en
+      obtain ⟨ev, hev, h1, h2, h3⟩ := keyState_mem _ ai e' m' hks
+      have hmax := keyState_max _ ai e' m' hks
+      have hevR : resolve adapters ev ∈ (forKey s (events adapters)).map (resolve adapters) :=
+        List.mem_map.mpr ⟨ev, hev, rfl⟩
+      have hxm : evx.m = m := by
+        have := congrArg (fun r : ROffer => r.2.2.2) hrx; simpa [resolve] using this
+      have hmm : m' = m := by
+        have a1 := hmaxR _ hevR
+        have a2 := hmax evx hevx
+        simp only [resolve] at a1
+        omega
+      subst hmm
+      rw [cnt_resolve] at hcntR
+      have hflag := keyState_flag_false_of_unique _ ai e' m' hks hcntR
+      -- the entry, resolved, is in the one-element list of best offers, and so is x
+      have hin1 : resolve adapters ev ∈ ((forKey s (events adapters)).map (resolve adapters)).filter (fun y => y.2.2.2 == m') :=
+        List.mem_filter.mpr ⟨hevR, by simp [resolve, h3]⟩
+      have hin2 : (a, s, e, m') ∈ ((forKey s (events adapters)).map (resolve adapters)).filter (fun y => y.2.2.2 == m') :=
+        List.mem_filter.mpr ⟨hmem, by simp⟩
+      have hlen1 : (((forKey s (events adapters)).map (resolve adapters)).filter (fun y => y.2.2.2 == m')).length = 1 := by
+        rw [cnt_resolve]; exact hcntR
+      have heq : resolve adapters ev = (a, s, e, m') := by
+        obtain ⟨z, hF⟩ := List.length_eq_one_iff.mp hlen1
+        rw [hF] at hin1 hin2
+        simp only [List.mem_singleton] at hin1 hin2
+        rw [hin1, hin2]
+      simp only [resolve, Prod.mk.injEq] at heq
+      obtain ⟨ha, _, he, _⟩ := heq
+      simp only [finalEntry, hfin, hflag, Bool.false_eq_true, if_false, hks, Option.map_some]
+      rw [← h1, ← h2, ha, he]
+
+/-- **Order independence.** The final index holds the same adapter, errors and matches for every string under every
+    order of the adapter list (and the same strings are absent). -/
 theorem finalEntry_perm {D : Type} (ops : DictOps D) (hl : ops.Lawful) (as bs : List Adapter) (hp : as.Perm bs)
-    (isPrefix : Bool) (s : Bytes)
-    (hnt : (rForKey s (rEvents as)).Pairwise (fun x y => x.2.2.2 ≠ y.2.2.2)) :
+    (isPrefix : Bool) (s : Bytes) :
     finalEntry ops as isPrefix s = finalEntry ops bs isPrefix s := by
   have hperm : (rForKey s (rEvents as)).Perm (rForKey s (rEvents bs)) :=
     List.Perm.filter _ (List.Perm.flatMap_right _ hp)
-  have hnt' : (rForKey s (rEvents bs)).Pairwise (fun x y => x.2.2.2 ≠ y.2.2.2) :=
-    (List.Perm.pairwise_iff (fun {x y} (h : x.2.2.2 ≠ y.2.2.2) => Ne.symm h) hperm).mp hnt
-  rcases finalEntry_noties ops hl as isPrefix s hnt with ⟨ha0, ha⟩ | ⟨a, e, m, ha, hma, hmaxa⟩ <;>
-  rcases finalEntry_noties ops hl bs isPrefix s hnt' with ⟨hb0, hb⟩ | ⟨b, e', m', hb, hmb, hmaxb⟩
-  · rw [ha, hb]
-  · rw [ha0] at hperm
-    have := List.Perm.mem_iff hperm |>.mpr hmb
-    simp at this
-  · rw [hb0] at hperm
-    have := List.Perm.mem_iff hperm |>.mp hma
-    simp at this
-  · have hmb' : (b, s, e', m') ∈ rForKey s (rEvents as) := (List.Perm.mem_iff hperm).mpr hmb
-    have hma' : (a, s, e, m) ∈ rForKey s (rEvents bs) := (List.Perm.mem_iff hperm).mp hma
-    have h1 := hmaxa _ hmb'
-    have h2 := hmaxb _ hma'
-    simp only at h1 h2
-    have hm : m = m' := by omega
-    have := pairwise_inj (fun x : ROffer => x.2.2.2) _ hnt _ _ hma hmb' hm
-    simp only [Prod.mk.injEq] at this
-    obtain ⟨rfl, _, rfl, rfl⟩ := this
-    rw [ha, hb]
+  apply Option.ext
+  rintro ⟨a, e, m⟩
+  rw [finalEntry_eq_some_iff ops hl, finalEntry_eq_some_iff ops hl]
+  exact ⟨isWinner_perm _ _ hperm _, isWinner_perm _ _ hperm.symm _⟩
 
 end Cutadapt.Index
